@@ -1,5 +1,5 @@
 (* C06 - nested (path-addressed) updates and slices follow list/dict semantics.  Statements only. *)
-From RU Require Import Base Types Defs BitReader World BitReaderProofs NestedProofs.
+From RU Require Import Base Types Defs BitReader World WireSpec BitReaderProofs NestedProofs NestedGlue.
 Open Scope N_scope.
 
 (* the bit path: for every value and every valid path of any depth, the encoding "1 + index in bits_required(size) bits
@@ -36,6 +36,34 @@ Theorem C06_nested_apply_other_props : forall St e m sl payload e' cs,
   exists name, forall k, k <> name -> assoc_get k (en_client e') = assoc_get k (en_client e).
 Proof. exact nested_apply_other_props. Qed.
 Print Assumptions C06_nested_apply_other_props.
+
+(* END TO END, from the bytes of the payload to the new property value.  The payload is built exactly as the statement says:
+   MSB-first bit fields - a 1 and the property index in bits_required(#client properties) bits, then per path step a 1 and the
+   index in bits_required(container size) bits, a 0 stop bit, the leaf index (or two slice bounds in bits_required(size+1)
+   bits) - zero padding to the next whole byte, then the element data in the C03 wire encoding.  The model applies it as
+   the plain list update of exactly the addressed sub-value of exactly the addressed property (any depth, any sizes). *)
+Theorem C06_nested_set_list_element : forall St e m pid p top pth pbits et l i x,
+  nth_error (e_client m) pid = Some p -> assoc_get (p_name p) (en_client e) = Some top ->
+  encode_path top pth = Some pbits -> leaf_of top pth = Some (VList et l) ->
+  (i < length l)%nat -> has_type code_limits et x -> wire_encode 1 et x <> [] ->
+  let bits := (to_bits 1 1 ++ to_bits (bits_required (length (e_client m))) (N.of_nat pid) ++ pbits
+               ++ to_bits (bits_required (length l)) (N.of_nat i))%list in
+  exists cs, nested_apply St e m false (pack_bits bits ++ wire_encode 1 et x) =
+             Ok (set_client e (p_name p) (update_at pth (VList et (replace_nth i x l)) top), cs).
+Proof. exact nested_set_list_element. Qed.
+Print Assumptions C06_nested_set_list_element.
+(* slices: replace / insert / delete, for ALL bounds that fit the bit width (i > j and bounds beyond the end included) *)
+Theorem C06_nested_slice_list : forall St e m pid p top pth pbits et l i j xs,
+  nth_error (e_client m) pid = Some p -> assoc_get (p_name p) (en_client e) = Some top ->
+  encode_path top pth = Some pbits -> leaf_of top pth = Some (VList et l) ->
+  N.of_nat i < 2 ^ N.of_nat (bits_required (length l + 1)) -> N.of_nat j < 2 ^ N.of_nat (bits_required (length l + 1)) ->
+  Forall (fun x => has_type code_limits et x /\ wire_encode 1 et x <> []) xs ->
+  let bits := (to_bits 1 1 ++ to_bits (bits_required (length (e_client m))) (N.of_nat pid) ++ pbits
+               ++ to_bits (bits_required (length l + 1)) (N.of_nat i) ++ to_bits (bits_required (length l + 1)) (N.of_nat j))%list in
+  exists cs, nested_apply St e m true (pack_bits bits ++ encode_many et xs) =
+             Ok (set_client e (p_name p) (update_at pth (VList et (slice_assign i j xs l)) top), cs).
+Proof. exact nested_slice_list. Qed.
+Print Assumptions C06_nested_slice_list.
 
 (* Python slice assignment l[i:j] = xs, for ALL i, j (clamped like CPython: i > len, j > len, i > j) *)
 Theorem C06_slice_assign_general : forall (A : Type) (i j : nat) (xs l : list A),
